@@ -396,7 +396,8 @@ Section Sem.
   | VFrames (l : list (frame Q))
   | VDict (d : list (name * Q))
   | VUnit
-  | VErr (e : err).
+  | VErr (e : err)
+  | VOther.                         (* an outcome outside the model: equal to nothing *)
 
   Definition qframe (f : frame Z) : frame Q :=
     mkFrame (f_idx f) (f_cols f) (map (map inject_Z) (f_rows f)).
